@@ -204,6 +204,7 @@ type selectStmt struct {
 	nAggs   int
 	aggs    []*eFunc
 	hasSRF  bool
+	lookup  *keyLookup // unique-key access path for the first FROM item
 }
 
 type onConflict struct {
@@ -253,6 +254,7 @@ type updateStmt struct {
 	width   int
 	retCols []colInfo
 	retExpr []expr
+	lookup  *keyLookup
 }
 
 type deleteStmt struct {
@@ -265,6 +267,7 @@ type deleteStmt struct {
 	tbl     *table
 	retCols []colInfo
 	retExpr []expr
+	lookup  *keyLookup
 }
 
 type txStmt struct{ kind string } // begin, commit, rollback
@@ -277,3 +280,10 @@ type deallocateStmt struct {
 }
 
 type emptyStmt struct{}
+
+// keyLookup is an access path: the WHERE clause pins every column of a unique
+// constraint to an expression that does not depend on the scanned row.
+type keyLookup struct {
+	u    *uniqueCon
+	keys []expr // in u.cols order
+}
